@@ -34,13 +34,14 @@ package pem
 //@   loop 0 invariant 0 <= i
 //@   loop 0 decreases len(certs) - i
 
-// DecodePEMPrivateKey: the assertion key.(crypto.Signer) on the result of x509.ParsePKCS8PrivateKey is NOT discharged
-// (obligation assert#0): the documented result set includes *ecdh.PrivateKey (X25519), which has no Sign method.
+// DecodePEMPrivateKey: malformed key material is reported by the error alone. (Repaired twice: the assertion
+// key.(crypto.Signer) on an X25519 PKCS#8 key used to panic, and for EC / RSA blocks the typed-nil pointer of the x509
+// parser used to come back as a non-nil Signer next to the error: its Public() dereferences nil.)
 //@ func DecodePEMPrivateKey
 //@   tags C07
 //@   modifies nothing
-// (No "error ==> nil signer" postcondition: for EC / RSA blocks the typed-nil pointer returned by the x509 parser on
-//  failure is converted to a non-nil crypto.Signer interface value; callers have to look at the error first.)
+//@   ensures [C07.pem.key.err] result1 != nil ==> result == nil
+//@   ensures [C07.pem.key.ok] result1 == nil ==> result != nil
 //@   replay template pemprivatekey
 //@   replay val isecdh = typeis(call_ParsePKCS8PrivateKey_0_key, "*crypto/ecdh.PrivateKey")
 //@   replay val isrsa = typeis(call_ParsePKCS8PrivateKey_0_key, "*crypto/rsa.PrivateKey")
